@@ -1,11 +1,12 @@
 """Self-test variants for C29.
 
-C29.5 (ShareFile.add_lease, ShareFile.cancel_lease) and C29.6
-(MutableShareFile._write_lease_record) fire on the unchanged tree (genuine
-findings); the variants below therefore assume those three keys are registered
-in known_findings.json.  Breaking variants of C29.5 / C29.6 create the same
-defect in *another* construct so that a new key appears; the two 'repair'
-variants show that the rules go silent when the defect is removed."""
+C29.5 (ShareFile.add_lease, ShareFile.cancel_lease) fires on the unchanged tree
+(genuine findings registered in known_findings.json).  The breaking variant of
+C29.5 creates the same defect in *another* construct so that a new key appears;
+'repair-lease-offset-from-header' shows that the rule goes silent when the defect
+is removed ('repair-mutable-record-before-count' is skipped since that repair
+was applied to /repo).  C29.7 / C29.8 variants: the kept-open buffered writer of
+seeded change C29-B and other ways of leaving bytes unwritten at the rename."""
 from .runner import M
 
 IMM = "src/allmydata/storage/immutable.py"
@@ -29,6 +30,39 @@ _MUT_ELSE = ("            # must add an extra lease record\n"
              "        f.seek(offset)\n"
              "        assert f.tell() == offset\n"
              "        f.write(self._schema.lease_serializer.serialize(lease_info))\n")
+
+# ---- C29.7 / C29.8: buffered file objects and the publishing rename
+_WSD = ("        with open(self.home, 'rb+') as f:\n"
+        "            real_offset = self._data_offset+offset\n"
+        "            f.seek(real_offset)\n"
+        "            assert f.tell() == real_offset\n"
+        "            f.write(data)\n")
+_WSD_KEPT = ("        if self._writer is None:\n"
+             "            self._writer = open(self.home, 'rb+')\n"
+             "        f = self._writer\n"
+             "        real_offset = self._data_offset+offset\n"
+             "        f.seek(real_offset)\n"
+             "        assert f.tell() == real_offset\n"
+             "        f.write(data)\n")
+_INIT_TAIL = "        self._data_offset = 0xc\n\n    def get_length(self):"
+_INIT_TAIL_KEPT = ("        self._data_offset = 0xc\n"
+                   "        self._writer = None\n\n"
+                   "    def close(self):\n"
+                   "        if self._writer is not None:\n"
+                   "            self._writer.close()\n"
+                   "            self._writer = None\n\n"
+                   "    def get_length(self):")
+_READ = "        with open(self.home, 'rb') as f:\n            f.seek(seekpos)"
+_READ_KEPT = ("        if self._writer is not None:\n"
+              "            self._writer.flush()\n"
+              "        with open(self.home, 'rb') as f:\n            f.seek(seekpos)")
+_RENAME = "        fileutil.rename(self.incominghome, self.finalhome)\n"
+_CLOSE_TAIL = "            pass\n        self._sharefile = None\n        self.closed = True\n"
+_KEPT_EDITS = [(IMM, _WSD, _WSD_KEPT), (IMM, _READ, _READ_KEPT)]
+_BW_WRITE = "    def write(self, offset, data):  # type: (int, bytes) -> bool\n"
+_FILL = ("    def _fill_holes(self):\n"
+         "        for (start, end, _) in self.required_ranges().ranges():\n"
+         "            self._sharefile.write_share_data(start, b\"\\x00\" * (end - start))\n\n")
 
 MUTANTS = [
     # ---- C29.1 add_lease ordering
@@ -98,10 +132,12 @@ MUTANTS = [
       "    def _write_lease_record(self, f, lease_number, lease_info):\n"
       "        extra_lease_offset = self._read_extra_lease_offset(f)\n"
       "        num_extra_leases = self._read_num_extra_leases(f)\n"
+      "        add_extra_lease = False\n"
       "        if lease_number < 4:",
       "    def _write_lease_record(self, f, lease_number, lease_info):\n"
       "        extra_lease_offset = self._read_extra_lease_offset(f)\n"
       "        num_extra_leases = self._read_num_extra_leases(f)\n"
+      "        add_extra_lease = False\n"
       "        if lease_number <= 4:", "C29.4"),
     M("mutable-add-lease-grows-container", MUT,
       "                self._write_lease_record(f, num_lease_slots, lease_info)\n",
@@ -121,6 +157,75 @@ MUTANTS = [
       "                    raise NoSpace()\n"
       "                self._write_num_extra_leases(f, num_lease_slots - 4 + 1)\n"
       "                self._write_lease_record(f, num_lease_slots, lease_info)\n", "C29.6"),
+    # ---- C29.7 nothing pending in a write buffer when the share is published
+    M("kept-writer-closed-after-rename", IMM, _INIT_TAIL, _INIT_TAIL_KEPT, "C29.7",     # the seeded mechanism (C29-B)
+      edits=_KEPT_EDITS + [(IMM, _CLOSE_TAIL, "            pass\n        self._sharefile.close()\n"
+                                              "        self._sharefile = None\n        self.closed = True\n")]),
+    M("kept-writer-flushed-only-when-finished", IMM, _INIT_TAIL, _INIT_TAIL_KEPT, "C29.7",
+      edits=_KEPT_EDITS + [(IMM, _RENAME, "        if self._is_finished():\n            self._sharefile.close()\n" + _RENAME),
+                           (IMM, _CLOSE_TAIL, "            pass\n        self._sharefile.close()\n"
+                                              "        self._sharefile = None\n        self.closed = True\n")]),
+    M("kept-writer-left-to-garbage-collection", IMM, _INIT_TAIL,
+      "        self._data_offset = 0xc\n        self._writer = None\n\n    def get_length(self):", "C29.7",
+      edits=[(IMM, _WSD,
+              "        if self._writer is None:\n"
+              "            fobj = open(self.home, 'rb+')\n"
+              "            self._writer = fobj\n"
+              "        f = self._writer\n"
+              "        real_offset = self._data_offset+offset\n"
+              "        f.seek(real_offset)\n"
+              "        assert f.tell() == real_offset\n"
+              "        f.write(data)\n"),
+             (IMM, _READ, _READ_KEPT)]),
+    M("kept-writer-rewritten-between-flush-and-rename", IMM, _INIT_TAIL, _INIT_TAIL_KEPT, "C29.7",
+      edits=_KEPT_EDITS + [(IMM, _RENAME, "        self._sharefile.close()\n"
+                                          "        self._sharefile.write_share_data(self._max_size - 1, "
+                                          "self._sharefile.read_share_data(self._max_size - 1, 1))\n" + _RENAME)]),
+    M("bucket-writer-keeps-own-file-object", IMM,
+      "        self._sharefile.add_lease(lease_info)\n        self._already_written = RangeMap()\n",
+      "        self._sharefile.add_lease(lease_info)\n        self._data_file = open(incominghome, 'rb+')\n"
+      "        self._already_written = RangeMap()\n", "C29.7",
+      edits=[(IMM, "        self._sharefile.write_share_data(offset, data)\n",
+              "        self._data_file.seek(0xc + offset)\n        self._data_file.write(data)\n"),
+             (IMM, _CLOSE_TAIL, "            pass\n        self._data_file.close()\n"
+                                "        self._sharefile = None\n        self.closed = True\n")]),
+    M("benign-kept-writer-closed-before-rename", IMM, _INIT_TAIL, _INIT_TAIL_KEPT, None,
+      edits=_KEPT_EDITS + [(IMM, _RENAME, "        self._sharefile.close()\n" + _RENAME)]),
+    M("benign-kept-writer-flushed-by-helper-before-rename", IMM, _INIT_TAIL, _INIT_TAIL_KEPT, None,
+      edits=_KEPT_EDITS + [(IMM, _RENAME, "        self._finish_writing()\n" + _RENAME),
+                           (IMM, _BW_WRITE, "    def _finish_writing(self):\n        sf = self._sharefile\n"
+                                            "        sf.close()\n\n" + _BW_WRITE)]),
+    M("benign-write-share-data-try-finally", IMM, _WSD,
+      "        f = open(self.home, 'rb+')\n"
+      "        try:\n"
+      "            real_offset = self._data_offset+offset\n"
+      "            f.seek(real_offset)\n"
+      "            assert f.tell() == real_offset\n"
+      "            f.write(data)\n"
+      "        finally:\n"
+      "            f.close()\n", None),
+    M("benign-open-through-helper", IMM, _WSD,
+      "        with self._open_rw() as f:\n"
+      "            real_offset = self._data_offset+offset\n"
+      "            f.seek(real_offset)\n"
+      "            assert f.tell() == real_offset\n"
+      "            f.write(data)\n\n"
+      "    def _open_rw(self):\n"
+      "        return open(self.home, 'rb+')\n", None),
+    # ---- C29.8 nothing writes share data after the share was published
+    M("holes-filled-after-rename", IMM, _CLOSE_TAIL,
+      "            pass\n"
+      "        self._sharefile.home = self.finalhome\n"
+      "        for (hole_start, hole_end, _) in self.required_ranges().ranges():\n"
+      "            self._sharefile.write_share_data(hole_start, b\"\\x00\" * (hole_end - hole_start))\n"
+      "        self._sharefile = None\n        self.closed = True\n", "C29.8"),
+    M("fill-helper-called-after-rename", IMM, _RENAME,
+      _RENAME + "        self._sharefile.home = self.finalhome\n        self._fill_holes()\n", "C29.8",
+      edits=[(IMM, _BW_WRITE, _FILL + _BW_WRITE)]),
+    M("benign-fill-helper-called-before-rename", IMM, _RENAME, "        self._fill_holes()\n" + _RENAME, None,
+      edits=[(IMM, _BW_WRITE, _FILL + _BW_WRITE)]),
+    M("vanish-no-publishing-rename", IMM, _RENAME, "        shutil.copyfile(self.incominghome, self.finalhome)\n",
+      "ANALYSIS-ERROR"),
     # ---- benign
     M("benign-inline-new-count", IMM, _ADD,
       "            encoded = struct.pack(self._lease_count_format, 1 + num_leases)\n"
@@ -143,10 +248,12 @@ MUTANTS = [
       "    def _write_lease_record(self, f, lease_number, lease_info):\n"
       "        extra_lease_offset = self._read_extra_lease_offset(f)\n"
       "        num_extra_leases = self._read_num_extra_leases(f)\n"
+      "        add_extra_lease = False\n"
       "        if lease_number < 4:",
       "    def _write_lease_record(self, f, lease_number, lease_info):\n"
       "        extra_lease_offset = self._read_extra_lease_offset(f)\n"
       "        num_extra_leases = self._read_num_extra_leases(f)\n"
+      "        add_extra_lease = False\n"
       "        if not (lease_number >= 4):", None),
     # repairs: the findings disappear, nothing else fires
     M("repair-mutable-record-before-count", MUT, _MUT_ELSE,
